@@ -498,4 +498,53 @@ theorem concatKeepCols_ne_nil (columns f : List Name) (hf : f ≠ []) : concatKe
     | nil => exact absurd rfl hf
     | cons a t => simp
 
+/-! ### the labels `Concat._meta` declares -/
+
+theorem declaredFrames_of_nonempty {fs : List (List Name)} (h : ∀ f, f ∈ fs → f ≠ []) : declaredFrames fs = fs := by
+  apply List.filter_eq_self.mpr
+  intro f hf
+  cases f with
+  | nil => exact absurd rfl (h [] hf)
+  | cons _ _ => rfl
+
+theorem flatten_declaredFrames : ∀ fs : List (List Name), (declaredFrames fs).flatten = fs.flatten
+  | [] => rfl
+  | [] :: fs => by
+    have := flatten_declaredFrames fs
+    simpa [declaredFrames] using this
+  | (a :: t) :: fs => by
+    have := flatten_declaredFrames fs
+    simp only [declaredFrames, List.filter_cons, List.isEmpty_cons, Bool.not_false, if_true, List.flatten_cons] at this ⊢
+    rw [this]
+
+/-- stacking rows with `join="outer"`: the first-seen union of all labels, whatever inputs have no columns -/
+theorem concatCols_outer_flatten (fs : List (List Name)) :
+    concatCols false false fs = fs.flatten.foldl (fun acc c => if acc.contains c then acc else acc ++ [c]) [] := by
+  cases fs with
+  | nil => rfl
+  | cons f fs => simp only [concatCols, Bool.false_eq_true, if_false]
+
+/-- … so leaving the inputs without columns out changes nothing -/
+theorem concatLabels_outer (fs : List (List Name)) : concatLabels false false fs = concatCols false false fs := by
+  unfold concatLabels
+  rw [concatCols_outer_flatten, concatCols_outer_flatten, flatten_declaredFrames]
+
+theorem concatLabels_of_nonempty (axis1 inner : Bool) {fs : List (List Name)} (h : ∀ f, f ∈ fs → f ≠ []) :
+    concatLabels axis1 inner fs = concatCols axis1 inner fs := by
+  unfold concatLabels
+  rw [declaredFrames_of_nonempty h]
+
+/-- the parent projection is dropped only when the labels the new Concat DECLARES are exactly the requested list -/
+theorem concat_nokeep {axis1 inner : Bool} {frames : List (List Name)} {p : Parent} {deps : List Dep} {rw : Rw}
+    (h : concat axis1 inner frames p deps = some rw) (hk : rw.keep = false) :
+    concatLabels axis1 inner (((frames.filter (fun f => !concatDropped axis1 (detProj p deps []).toList f)).map
+        (concatKeepCols axis1 (detProj p deps []).toList))) = p.cols ∧ p.ndim1 = false := by
+  unfold concat at h
+  simp only at h
+  split at h
+  · cases h
+  · cases h
+    simp only [Bool.not_eq_false', Bool.and_eq_true, decide_eq_true_eq, Bool.not_eq_true'] at hk
+    exact ⟨by rw [hk.1, Parent.operand_toList], hk.2⟩
+
 end Dx.Cols
